@@ -8,12 +8,13 @@ use crate::driver::{AnyFlow, ReqCfg};
 use crate::engine::{guarded, Report, Tier, Violation};
 use crate::refmodel::reqvalid::{self, ReqFacts};
 
-pub const RULE: &str = "full product: version {0.9,1.0,1.1,2,3} x 9 methods x Host {none, one, two orig, orig+added, non-textual (invalid UTF-8), non-ASCII but well-formed UTF-8} x Content-Length {none, 3, 0, two orig, orig+added, -1, abc, non-utf8, empty value} x Transfer-Encoding {none, chunked, Chunked, CHUNKED} x despite-method {no,yes} x front end {Flow, Call::without_body, Call::with_body} x order in which the three kinds of header enter the request {Host-CL-TE, TE-CL-Host, TE-Host-CL; where two kinds are present}; plus non-standard method tokens {get, Post, head, PURGE, M-SEARCH, GETX} x versions x Content-Length {none,3} x Transfer-Encoding {none, chunked} x despite x front ends (all refused); plus flows obtained by following a 302 (original POST with Content-Length / GET, inherited Content-Length and Cookie suppressed) x caller-added Host {none, one, two} x caller-added Content-Length {none, 3, 0, two, -1, abc, non-utf8} x Transfer-Encoding x despite; every cell with the library's logging off and again at level Trace; per cell: write(4 KiB sentinel buffer) twice, write(empty buffer), readiness, proceed. distinct = distinct (validity class, front end, outcome) triples";
+pub const RULE: &str = "full product: version {0.9,1.0,1.1,2,3} x 9 methods x Host {none, one, two orig, orig+added, non-textual (invalid UTF-8), non-ASCII but well-formed UTF-8} x Content-Length {none, 3, 0, two orig, orig+added, -1, abc, non-utf8, empty value} x Transfer-Encoding {none, chunked, Chunked, CHUNKED} x despite-method {no,yes} x front end {Flow, Call::without_body, Call::with_body} x order in which the three kinds of header enter the request {Host-CL-TE, TE-CL-Host, TE-Host-CL; where two kinds are present}; plus request URIs without an authority {/page?x=1, /page, *, /} x Host {none, one, two} x Content-Length {none, 3, two} x versions x front ends; plus non-standard method tokens {get, Post, head, PURGE, M-SEARCH, GETX} x versions x Content-Length {none,3} x Transfer-Encoding {none, chunked} x despite x front ends (all refused); plus flows obtained by following a 302 (original POST with Content-Length / GET, inherited Content-Length and Cookie suppressed) x caller-added Host {none, one, two} x caller-added Content-Length {none, 3, 0, two, -1, abc, non-utf8} x Transfer-Encoding x despite; every cell with the library's logging off and again at level Trace; per cell: write(4 KiB sentinel buffer) twice, write(empty buffer), readiness, proceed. distinct = distinct (validity class, front end, outcome) triples";
 
 const METHODS: [&str; 9] = ["GET", "HEAD", "POST", "PUT", "DELETE", "CONNECT", "OPTIONS", "TRACE", "PATCH"];
 const VERSIONS: [&str; 5] = ["0.9", "1.0", "1.1", "2", "3"];
 const HOSTS: [&str; 6] = ["none", "one", "two-orig", "orig+added", "non-textual", "utf8-non-ascii"];
 const CLS: [&str; 9] = ["none", "3", "0", "two-orig", "orig+added", "-1", "abc", "non-utf8", "empty"];
+const ABS: &str = "http://a.test/p";
 const FRONTS: [&str; 3] = ["flow", "call-without-body", "call-with-body"];
 /// method tokens that are not one of the standard methods (tokens are case-sensitive): refused
 const ODD_METHODS: [&str; 6] = ["get", "Post", "head", "PURGE", "M-SEARCH", "GETX"];
@@ -30,6 +31,7 @@ struct Cell {
     /// order in which the three kinds of header enter the request: 0 = Host, Content-Length, Transfer-Encoding;
     /// 1 = Transfer-Encoding, Content-Length, Host; 2 = Transfer-Encoding, Host, Content-Length
     order: u8,
+    uri: &'static str,
 }
 
 fn cells() -> Vec<Cell> {
@@ -50,7 +52,7 @@ fn cells() -> Vec<Cell> {
                                     if order > 0 && kinds < 2 {
                                         continue;
                                     }
-                                    v.push(Cell { version, method, host, cl, te, despite, front, order });
+                                    v.push(Cell { version, method, host, cl, te, despite, front, order, uri: ABS });
                                 }
                             }
                         }
@@ -68,8 +70,20 @@ fn cells() -> Vec<Cell> {
                             if front != "flow" && despite {
                                 continue;
                             }
-                            v.push(Cell { version, method, host: "none", cl, te, despite, front, order: 0 });
+                            v.push(Cell { version, method, host: "none", cl, te, despite, front, order: 0, uri: ABS });
                         }
+                    }
+                }
+            }
+        }
+    }
+    // request URIs without an authority (origin-form, asterisk-form): no Host can be derived, and none is required
+    for version in ["1.0", "1.1"] {
+        for (method, uri) in [("GET", "/page?x=1"), ("POST", "/page"), ("OPTIONS", "*"), ("HEAD", "/")] {
+            for host in ["none", "one", "two-orig"] {
+                for cl in ["none", "3", "two-orig"] {
+                    for front in FRONTS {
+                        v.push(Cell { version, method, host, cl, te: "", despite: false, front, order: 0, uri });
                     }
                 }
             }
@@ -83,7 +97,7 @@ fn cells() -> Vec<Cell> {
                 for cl in ["none", "3", "0", "orig+added", "two-added", "-1", "abc", "non-utf8", "empty"] {
                     for te in ["", "chunked"] {
                         for despite in [false, true] {
-                            v.push(Cell { version, method, host, cl, te, despite, front: "flow-redirected", order: 0 });
+                            v.push(Cell { version, method, host, cl, te, despite, front: "flow-redirected", order: 0, uri: ABS });
                         }
                     }
                 }
@@ -128,7 +142,11 @@ fn cfg_of(c: &Cell) -> ReqCfg {
     if c.front == "flow-redirected" {
         return redirected_cfgs(c).1;
     }
-    let mut r = ReqCfg::new(c.method, c.version, "http://a.test/p");
+    let mut r = ReqCfg::new(c.method, c.version, c.uri);
+    if c.uri != ABS {
+        // (one unrelated header: a request without any header at all is a case of its own, see DESIGN section 7)
+        r = r.orig("x-any", "1");
+    }
     let call_api = c.front != "flow";
     match c.host {
         "one" => r = r.orig("host", "h.test"),
